@@ -102,6 +102,10 @@ def run(ck):
     from vlib import clike
     for dialect in ("hlsl", "msl", "glsl"):
         clike.sweep(ck, dialect, "c16clash", {"quick": 40, "thorough": 1500}.get(ck.tier, 40), glsl_ub_excluded=(dialect == "glsl"))
+    # vertex / fragment entry points whose arguments, members, locals and struct types share spellings with each other and
+    # with the interface structs and temporaries the writers generate: no text may declare one name twice in one scope
+    from vlib.props import c17
+    c17.iface_sweep(ck, names_only=True)
 
 
 def search_missing_keyword(ck, out):
